@@ -326,7 +326,14 @@ func runC16(c *core.Ctx) {
 				return
 			}
 			// over-long probes engineered to collide with k1 in hash and truncated length
-			for _, extra := range []int{65536, 131072} {
+			// ... and with the stored EMPTY key (truncated length 0: seeded/R7-C16-m2 skipped the key comparison there)
+			type probeTarget struct {
+				key   []byte
+				extra int
+			}
+			targets := []probeTarget{{k1, 65536}, {k1, 131072}, {[]byte{}, 65536}, {[]byte{}, 131072}}
+			for _, tg := range targets {
+				k1, kl, extra := tg.key, len(tg.key), tg.extra
 				L := extra + kl
 				tail := make([]byte, L%4)
 				prefix := make([]byte, L-4-len(tail))
@@ -337,6 +344,9 @@ func runC16(c *core.Ctx) {
 					panic("harness: bad over-long key")
 				}
 				c.Stat("overlong_probes_same_hash", 1)
+				if kl == 0 {
+					c.Stat("overlong_probes_colliding_with_empty_key", 1)
+				}
 				fpBefore, _ := dirFingerprint(env)
 				if v, err := db.Get(long); err != nil || v != nil {
 					fail("overlong-get-matched", fmt.Sprintf("Get with a %d-byte key (same hash and same 16-bit length as a stored %d-byte key) returned %d bytes, err %v", L, kl, len(v), err))
